@@ -126,6 +126,7 @@ def check_chunk(args):
     stats = {"evals": 0, "nontrivial": 0, "undef": 0, "file_blocks": 0}
     blocks = []
     for case in cases:
+        core.tick(case, 20)
         if not case["def"]:
             stats["undef"] += 1
             continue
